@@ -363,6 +363,22 @@ func c08(c *Ctx) {
 			if c.Rnd.Intn(3) == 0 {
 				data = data[:c.Rnd.Intn(len(data)+1)]
 			}
+			// re-seal every record head the scan will meet whose body is completely in the file (2 of 3 cases), so
+			// that flipped rlp bytes reach the decoder instead of being stopped by the checksum
+			if c.Rnd.Intn(3) != 0 {
+				for off := 0; off+18 <= len(data); {
+					ln := int(binary.LittleEndian.Uint32(data[off+4:]))
+					if ln > 1<<20 || off+18+ln > len(data) {
+						break
+					}
+					binary.LittleEndian.PutUint16(data[off+16:], store.CheckSum(data[off+18:off+18+ln]))
+					adv := int(store.FileUtilsAlign(uint32(18 + ln)))
+					if adv == 0 {
+						break
+					}
+					off += adv
+				}
+			}
 			st, _, line := c08Scan(scanPath, data)
 			c.Op("file "+hexOrDash(data), fmt.Sprintf("len %d", len(data)))
 			c.Op(fmt.Sprintf("scan %d 0", len(data)), line)
@@ -389,6 +405,12 @@ func c08(c *Ctx) {
 			data := append(head, b...)
 			if bi%2 == 0 {
 				data = append(data, make([]byte, 256-len(data)%256)...)
+			}
+			// the REAL checksum of the bytes the reader will take as the body, so that the repaired reader
+			// hands them to rlp.DecodeBytes (every error branch of the decoder model stays tied);
+			// one variant in four keeps a wrong checksum (-> end of the log)
+			if 18+ln <= len(data) && (bi+dl)%4 != 3 {
+				binary.LittleEndian.PutUint16(data[16:], store.CheckSum(data[18:18+ln]))
 			}
 			st, _, line := c08Scan(scanPath, data)
 			c.Op("file "+hexOrDash(data), fmt.Sprintf("len %d", len(data)))
